@@ -560,3 +560,15 @@ def run_case(case, ctx):
 
 def classify(case, witness):
     return None
+
+
+# floors for the call-history workloads added in session 3 (a run in which they were silently skipped is inconclusive)
+_floors_base = floors
+_FLOORS_EXTRA = {'monitors': {'decoy.unchanged': 50000}}
+
+
+def floors(tier):
+    f = _floors_base(tier)
+    for kind, d in _FLOORS_EXTRA.items():
+        f.setdefault(kind, {}).update(d)
+    return f
